@@ -254,6 +254,46 @@ func checkC02(c C02Case, r *Rec) *Violation {
 		r.Class(fmt.Sprintf("all-assignments-of-%d-boolean-variables", len(bools)))
 	}
 
+	// (h) an OperatorMap that also holds an entry under the name of a built-in operator the program uses
+	// (RegisterOperator refuses such names, a hand-built map does not): whichever of the two the engine
+	// calls, every configuration calls the same one - rule (a), model-free
+	if hash64(src)%4 == 0 && !c.RawConst {
+		shadowed := ""
+		c.Tree.Walk(func(x *m.Node) {
+			if shadowed == "" && x.Kind == m.KOp && m.IsBuiltin(x.Name) && !m.IsAnd(x.Name) && !m.IsOr(x.Name) {
+				shadowed = x.Name
+			}
+		})
+		if shadowed != "" {
+			var outs [16]Outcome
+			var dumps [16]string
+			for mask := 0; mask < 16; mask++ {
+				cc, _ := NewConfig(u, &Log{}, Build{Mask: mask, How: HowMapAll, Costs: c.Costs})
+				cc.OperatorMap[shadowed] = func(*eval.Ctx, []eval.Value) (eval.Value, error) { return int64(424242), nil }
+				e, co := SafeCompile(cc, src)
+				if co.Panic != nil {
+					return Violf("C02: Compile panics with an OperatorMap entry under the built-in name %q\nsrc=%s\n%v", shadowed, src, co)
+				}
+				if co.Err != nil {
+					outs[mask] = co
+					continue
+				}
+				dumps[mask], _ = SafeStr(func() string { return eval.Dump(e) })
+				f := NewFetcher(u, cc, &Log{})
+				outs[mask] = Safe(func() (eval.Value, error) { return e.Eval(f.Ctx()) })
+				if outs[mask].Panic != nil {
+					return Violf("C02: Eval panics with an OperatorMap entry under the built-in name %q (config %s)\nsrc=%s\n%v", shadowed, maskName(mask), src, outs[mask])
+				}
+				for m2 := 0; m2 < mask; m2++ {
+					if outs[mask].Err == nil && outs[m2].Err == nil && !m.EqualVal(outs[mask].Val, outs[m2].Val) {
+						return Violf("C02: with an OperatorMap entry under the built-in name %q configurations %s and %s both return a value but not the same\nsrc=%s\nbinding=%v\n%s -> %v\n%s\n%s -> %v\n%s", shadowed, maskName(mask), maskName(m2), src, describeU(u), maskName(mask), outs[mask], dumps[mask], maskName(m2), outs[m2], dumps[m2])
+					}
+				}
+			}
+			r.Class("operator-map-entry-under-a-built-in-name")
+		}
+	}
+
 	// (f) a fetcher that hands integers over as Go int: whatever the engine makes of such values
 	// (only eq/ne accept them), it makes the same of them in every configuration
 	if c.RawVars {
